@@ -4,8 +4,17 @@
      oskip <hex>                          -> OK <length> <n> | MORE | ERR   oer_open_type_skip (n = length determinant + length)
      xskip <tcv 0..7> <depth>             -> <ret> <depth'>                 xer_skip_unknown
      xskiprun <depth> <tcv,tcv,...>       -> <ret> <depth'> <tags looked at>
+   the tag-to-member lookups of Rt/SafetyTagMap.v, run on the tables `tm4` reads from the descriptors:
+     seqmem <els> <map> <first_ext|-> <tags>   -> OK <i,j,..|none> | FAIL | SHORT | FUEL   phase 1 of SEQUENCE_decode_ber
+     setmem <map> <ext 0|1> <tags>             -> OK <i,j,..|none> | FAIL                  member loop of SET_decode_ber
+     tagfind <map> <tag>                       -> <member> | NONE                          CHOICE_decode_ber / SET
+     seqfind <els> <map> <edx> <tag>           -> <member> | NONE
+     tmapok <count> <map>                      -> names=<0|1> inside=<0|1>
+       els = tag:optional:ctx,...   map = tag:el_no:toff_first:toff_last,...   tags = t,t,...   (- = empty)
    spec side (model only):
-     spec_skiplen_early <hex>             the loop of seeded/C04-2 on the contents of an indefinite TLV *)
+     spec_skiplen_early <hex>             the loop of seeded/C04-2 on the contents of an indefinite TLV
+     spec_seqmem_back <els> <map> <first_ext|-> <tags>    the member loop with the backwards walk of seeded/C04-5
+     spec_seqfind_back <els> <map> <edx> <tag> *)
 open Model
 open Drvlib
 
@@ -22,8 +31,38 @@ let xct_of_int = function
 
 let rec drop n l = if n <= 0 then l else match l with [] -> [] | _ :: t -> drop (n - 1) t
 
+let csv s = if s = "-" || s = "" then [] else String.split_on_char ',' s
+let fields s = String.split_on_char ':' s
+let els_of s = List.map (fun x -> match fields x with
+    | t :: o :: _ -> (cz_of_string t, nat_of_int (int_of_string o)) | _ -> failwith "els") (csv s)
+let reent_of s = List.map (fun x -> match fields x with
+    | _ :: _ :: c :: _ -> (int_of_string c) land 1 = 1 | _ -> false) (csv s)
+let map_of s = List.map (fun x -> match fields x with
+    | [t; n; f; l] -> { el_tag = cz_of_string t; el_no = nat_of_int (int_of_string n); toff_first = cz_of_string f; toff_last = cz_of_string l }
+    | _ -> failwith "map") (csv s)
+let tags_of s = List.map cz_of_string (csv s)
+let fext_of s = if s = "-" then None else Some (nat_of_int (int_of_string s))
+let trace_s l = if l = [] then "none" else String.concat "," (List.map (fun n -> string_of_int (int_of_nat n)) l)
+let lres_s = function
+  | LOk tr -> "OK " ^ trace_s tr
+  | LFail -> "FAIL"
+  | LShort -> "SHORT"
+  | LFuel -> "FUEL"
+let onat_s = function Some n -> string_of_int (int_of_nat n) | None -> "NONE"
+
 let dispatch cmd args =
   match cmd, args with
+  | "seqmem", [e; m; x; t] -> Some (lres_s (seq_members (els_of e) (map_of m) (fext_of x) (reent_of e) (tags_of t)))
+  | "spec_seqmem_back", [e; m; x; t] -> Some (lres_s (seq_members_back (els_of e) (map_of m) (fext_of x) (reent_of e) (tags_of t)))
+  | "setmem", [m; x; t] ->
+      Some (match set_members (map_of m) (x = "1") (tags_of t) with Some tr -> "OK " ^ trace_s tr | None -> "FAIL")
+  | "tagfind", [m; t] -> Some (onat_s (tag_find (map_of m) (cz_of_string t)))
+  | "seqfind", [e; m; x; t] -> Some (onat_s (seq_find (els_of e) (map_of m) (nat_of_int (int_of_string x)) (cz_of_string t)))
+  | "spec_seqfind_back", [e; m; x; t] -> Some (onat_s (seq_find_back (els_of e) (map_of m) (nat_of_int (int_of_string x)) (cz_of_string t)))
+  | "tmapok", [c; m] ->
+      let mm = map_of m in
+      Some (Printf.sprintf "names=%d inside=%d" (if names_members (nat_of_int (int_of_string c)) mm then 1 else 0)
+              (if offsets_inside mm then 1 else 0))
   | "skiplen", [c; h] -> Some (sres_s (ber_skip_length (c = "1") (bytes_of_hex h)))
   | "spec_skiplen_early", [h] ->
       let b = bytes_of_hex h in
